@@ -245,6 +245,9 @@ pub fn scenarios(thorough: bool) -> Vec<Scenario> {
         &[Op::Resolve(1, 0, 0), Op::Resolve(1, 0, 1), Op::Unstage(1)]));
     v.push(trio_scenario("trio", if thorough { 7 } else { 5 }));
     v.push(trio_merge_scenario("trio-merge", if thorough { 3 } else { 2 }, &[]));
+    v.push(relay_scenario("trio-relay", if thorough { 6 } else { 5 }, &[]));
+    // a commit after time travel that re-uses a value stored only in the pack of the abandoned branch
+    v.push(travel_reuse_scenario("pair-travel-reuse", if thorough { 5 } else { 4 }, &[]));
     // replica 1 lacks the tenth and eleventh commit of replica 0 (block indexes 10 and 11)
     v.push(many_commits_scenario("pair-many-commits", if thorough { 3 } else { 2 }, &[]));
     v
